@@ -20,9 +20,27 @@ type c13Payload struct {
 
 // clause A: strict-accepted => tolerant gives the identical tree (positions included), no errors;
 // smart == default when no ( or [ starts a line.
+// measured by the worker: parses executed, and a sink for product states (acceptance vector + error counts)
+var c13Parses int64
+var c13Sink func(state string)
+
 func c13Modes(src string) (kind, detail string, accepted bool) {
 	var outs [4]ParseOut
+	defer func() {
+		if c13Sink != nil {
+			var sb strings.Builder
+			for i := range outs {
+				fmt.Fprintf(&sb, "%v:%d:", outs[i].Err == nil, len(outs[i].Errs))
+				if outs[i].Err == nil && outs[i].Prog != nil {
+					sb.WriteString(ref.XStmts(outs[i].Prog.Statements))
+				}
+				sb.WriteByte('|')
+			}
+			c13Sink(sb.String())
+		}
+	}()
 	for i, m := range Modes {
+		c13Parses++
 		outs[i] = parseMode(src, m)
 		if outs[i].Panic != "" {
 			return "panic", m.String() + ": " + outs[i].Panic, false
@@ -126,6 +144,12 @@ func c13Same(src string, mode Mode, refSrc string, refMode Mode) (kind, detail s
 }
 
 func c13Run(c *core.Ctx) {
+	c13Sink = func(st string) {
+		if c.Distinct("mode_product_states", st) {
+			c.Inc("distinct_mode_product_states")
+		}
+	}
+	defer func() { c.Count("mode_parses", c13Parses) }()
 	viol := func(clause, k, d, src, src2 string, size int) {
 		if k == "" || !c.ShrinkOK(clause+k) {
 			return
@@ -440,9 +464,9 @@ func c13Replay(pl json.RawMessage) (string, []core.Violation) {
 func init() {
 	core.Register(&core.PropSpec{
 		ID: "C13", Level: "model_checking",
-		Rule:     "mode product: every token sequence <= n (4 quick, 5 thorough) in space and LF layouts and every statement-family program (simple statements covering each ASI-relevant first token, compound forms with brace-less/block bodies, nested function expressions) in every layout with <= k deviations (k=1 quick, 2 thorough) is parsed in the 4 mode combinations: strict-accepted => tolerant yields the identical tree dump (positions, flags, comments) and no errors; without a line-initial ( or [ the smart flag changes nothing (tree, acceptance, error count); with one, smart == default on the text with ';' inserted before each line-initial INFIX bracket (prefix-position brackets unchanged); on rejected inputs tolerant reports the same first error as strict unless that error is a missing separator or an unclosed block; every fused statement pair (separator dropped, next token cannot continue) and every removal of a trailing run of statement-level closing braces is accepted by tolerant mode with the tree of the intact program. states = distinct (program, layout) texts, transitions = parses",
+		Rule:     "mode product: every token sequence <= n (4 quick, 5 thorough) in space and LF layouts and every statement-family program (simple statements covering each ASI-relevant first token, compound forms with brace-less/block bodies, nested function expressions) in every layout with <= k deviations (k=1 quick, 2 thorough) is parsed in the 4 mode combinations: strict-accepted => tolerant yields the identical tree dump (positions, flags, comments) and no errors; without a line-initial ( or [ the smart flag changes nothing (tree, acceptance, error count); with one, smart == default on the text with ';' inserted before each line-initial INFIX bracket (prefix-position brackets unchanged); on rejected inputs tolerant reports the same first error as strict unless that error is a missing separator or an unclosed block; every fused statement pair (separator dropped, next token cannot continue) and every removal of a trailing run of statement-level closing braces is accepted by tolerant mode with the tree of the intact program. states = distinct states of the mode product (acceptance, error count and tree shape in each of the 4 modes), transitions = parses executed",
 		Assume:   []string{"bracket roles (infix vs prefix position) come from the harness unparser, cross-checked against goja by C02"},
 		QuickSec: 400, ThorSec: 3000, Run: c13Run, Replay: c13Replay,
-		Evals: "inputs", Nontriv: "accepted_programs", States: "inputs", Trans: "inputs",
+		Evals: "inputs", Nontriv: "accepted_programs", States: "distinct_mode_product_states", Trans: "mode_parses",
 	})
 }
